@@ -228,6 +228,11 @@ UNIT = Unit(
            ensures=[("C15-bytes-format", "r.is_ok() ==> final(f).text() == old(f).text() + bytes_text(np_decimal_spec(self.0))")]),
         Fn("src/format.rs", "fmt::Display for FormattedDuration", "fmt", ret="r", sig_rewrites=FMT_SIG,
            rewrites=[RwFn("R7", r7_write_macros, count=2)],
+           proofs=[(r"if t > 0", "before", """        proof {
+            let t0 = (self.0.ns() / 1_000_000_000) as int;
+            assert((t0 / 60) / 60 == t0 / 3600) by (nonlinear_arith) requires t0 >= 0;
+            assert(((t0 / 60) / 60) / 24 == t0 / 86400) by (nonlinear_arith) requires t0 >= 0;
+        }""")],
            requires=[("duration-wf", "self.0.wf()")],
            ensures=[("C15-formatted-duration",
                      "r.is_ok() ==> ({ let t = self.0.ns() / 1_000_000_000; let s = t % 60; let m = (t / 60) % 60; let h = (t / 3600) % 24; let d = t / 86400; "
